@@ -23,7 +23,9 @@ What is compared, per case:
    accepted) inside that band;
  * a point ON a nucleus with threshold 0 divides by zero in the code (inf / nan under errstate) and has no value in
    the property: such points are not compared, only counted (the call must not raise);
- * with a transform, additionally impl(T, P) against impl(None, T^T P T) (T^T P T computed exactly).
+ * with a transform, additionally impl(T, P) against impl(None, T^T P T) (T^T P T computed exactly);
+ * HISTORY: a case with "P2" is a sequence of three calls in one process (P, P2, P again; everything else value-identical
+   and rebuilt), each compared with the model for its own density matrix (detail kind "history").
 """
 import itertools
 import math
